@@ -72,8 +72,17 @@ struct data_t
     int64_t                                 n{0};
 };
 
-// integer data; the scalar target is unique per sample when `unique_targets`
-data_t make_data(vt::Rng& rng, bool unique_targets, bool class_target)
+enum class target_kind
+{
+    scalar,
+    sclass,
+    structured, // regression target with 2..3 outputs
+    mclass      // multi-label target with 2..3 labels
+};
+
+// integer data; the scalar target (the first component of a structured one) is unique per sample when `unique_targets`;
+// `rich_inputs` adds a multi-label and a structured input feature (several flattened columns per feature, missing as a whole)
+data_t make_data(vt::Rng& rng, bool unique_targets, target_kind target, bool rich_inputs = false)
 {
     data_t D;
     D.n = rng.range(1, unique_targets ? 200 : 40);
@@ -99,12 +108,70 @@ data_t make_data(vt::Rng& rng, bool unique_targets, bool class_target)
         }
         columns.push_back(col);
     }
-    if (class_target)
+    if (rich_inputs)
+    {
+        if (rng.coin(2, 3))
+        {
+            const auto classes = rng.range(2, 3);
+            auto       col     = vt::make_mclass_column("m", classes, D.n);
+            for (int64_t s = 0; s < D.n; ++s)
+            {
+                for (int64_t k = 0; k < classes; ++k)
+                {
+                    col.flat[static_cast<size_t>(s * classes + k)] = rng.coin() ? 1.0 : 0.0;
+                }
+                col.missing[static_cast<size_t>(s)] = static_cast<char>(rng.coin(1, 7));
+            }
+            columns.push_back(col);
+        }
+        if (rng.coin(2, 3))
+        {
+            const auto dims = rng.pick(std::vector<tensor3d_dims_t>{make_dims(2, 1, 1), make_dims(1, 3, 1), make_dims(2, 1, 2)});
+            auto       col  = vt::make_struct_column("t", rng.coin() ? feature_type::float64 : feature_type::int16, dims, D.n);
+            for (int64_t s = 0; s < D.n; ++s)
+            {
+                for (int64_t k = 0; k < col.width; ++k)
+                {
+                    col.flat[static_cast<size_t>(s * col.width + k)] = static_cast<double>(rng.range(-3, 3));
+                }
+                col.missing[static_cast<size_t>(s)] = static_cast<char>(rng.coin(1, 7));
+            }
+            columns.push_back(col);
+        }
+    }
+    if (target == target_kind::sclass)
     {
         auto col = vt::make_sclass_column("y", 3, D.n);
         for (int64_t s = 0; s < D.n; ++s)
         {
             col.flat[static_cast<size_t>(s)] = static_cast<double>(rng.range(0, 2));
+        }
+        columns.push_back(col);
+    }
+    else if (target == target_kind::mclass)
+    {
+        const auto classes = rng.range(2, 3);
+        auto       col     = vt::make_mclass_column("y", classes, D.n);
+        for (int64_t s = 0; s < D.n; ++s)
+        {
+            for (int64_t k = 0; k < classes; ++k)
+            {
+                col.flat[static_cast<size_t>(s * classes + k)] = rng.coin() ? 1.0 : 0.0;
+            }
+        }
+        columns.push_back(col);
+    }
+    else if (target == target_kind::structured)
+    {
+        const auto dims = rng.pick(std::vector<tensor3d_dims_t>{make_dims(2, 1, 1), make_dims(3, 1, 1), make_dims(1, 2, 1), make_dims(1, 1, 3)});
+        auto       col  = vt::make_struct_column("y", feature_type::float64, dims, D.n);
+        for (int64_t s = 0; s < D.n; ++s)
+        {
+            for (int64_t k = 0; k < col.width; ++k)
+            {
+                col.flat[static_cast<size_t>(s * col.width + k)] =
+                    (unique_targets && k == 0) ? static_cast<double>(1000 + s) : static_cast<double>(rng.range(-4, 4));
+            }
         }
         columns.push_back(col);
     }
@@ -132,7 +199,9 @@ std::unique_ptr<dataset_t> make_dataset(const datasource_t& source, size_t threa
     return dataset;
 }
 
-indices_t pick_samples(vt::Rng& rng, int64_t n)
+// the sample lists handed to an iterator: all samples, a sorted subset of distinct samples (what the splitters produce), and - when
+// `any_list` - a sorted list with repetitions (a bootstrap sample of gboost::sampler_t), the same shuffled, a shuffled subset
+indices_t pick_samples(vt::Rng& rng, int64_t n, bool any_list = false)
 {
     if (rng.coin())
     {
@@ -141,13 +210,32 @@ indices_t pick_samples(vt::Rng& rng, int64_t n)
     indices_t all = arange(0, n);
     auto      gen = make_rng(static_cast<uint64_t>(rng.range(0, 1 << 20)));
     std::shuffle(all.begin(), all.end(), gen);
+    const auto how = any_list ? rng.range(0, 3) : 0;
+    if (how >= 2)
+    {
+        // with repetitions: 1..2n draws
+        const auto k = rng.range(1, 2 * n);
+        indices_t  samples(k);
+        for (tensor_size_t i = 0; i < k; ++i)
+        {
+            samples(i) = rng.range(0, n - 1);
+        }
+        if (how == 2)
+        {
+            std::sort(samples.begin(), samples.end());
+        }
+        return samples;
+    }
     const auto k = rng.range(1, n);
     indices_t  samples(k);
     for (tensor_size_t i = 0; i < k; ++i)
     {
         samples(i) = all(i);
     }
-    std::sort(samples.begin(), samples.end());
+    if (how == 0)
+    {
+        std::sort(samples.begin(), samples.end());
+    }
     return samples;
 }
 
@@ -228,17 +316,21 @@ tensor2d_t flat_targets(const dataset_t& dataset, const indices_t& samples)
 
 void lattice_case(vt::Rng& rng, int64_t icase)
 {
-    const auto class_target = rng.coin(1, 3);
-    const auto D            = make_data(rng, false, class_target);
+    const auto tpick        = rng.range(0, 11);
+    const auto target       = tpick < 4 ? target_kind::sclass : tpick < 6 ? target_kind::structured : tpick < 7 ? target_kind::mclass : target_kind::scalar;
+    const auto D            = make_data(rng, false, target, rng.coin(1, 4));
     const auto lossid       = rng.coin() ? "mse" : "mae";
     const auto loss         = loss_t::all().get(lossid);
-    const auto samples      = pick_samples(rng, D.n);
+    const auto samples      = pick_samples(rng, D.n, true);
     const auto n            = samples.size();
     auto       dataset      = make_dataset(*D.source, static_cast<size_t>(rng.range(1, 16)));
     const auto X            = flat_inputs(*dataset, samples);
     const auto T            = flat_targets(*dataset, samples);
     const auto isize = dataset->columns(), tsize = ::nano::size(dataset->target_dims());
     bool       exact = true;
+    // every objective is evaluated with its gradient at several points on the SAME function object (a solver does so hundreds of
+    // times): each evaluation is recorded and re-computed on its own, so nothing of an earlier evaluation may leak into a later one
+    const auto calls = 2;
 
     // ---- linear objective
     {
@@ -253,54 +345,60 @@ void lattice_case(vt::Rng& rng, int64_t icase)
         const auto l1 = static_cast<double>(rng.pick(std::vector<int64_t>{0, 0, 1, 2, 5}));
         const auto l2 = static_cast<double>(rng.pick(std::vector<int64_t>{0, 0, 1, 4}));
         const auto function = linear::function_t{it, *loss, l1, l2};
-        vector_t   x(function.size()), gx(function.size());
-        for (tensor_size_t i = 0; i < x.size(); ++i)
+        for (int call = 1; call <= calls; ++call)
         {
-            x(i) = static_cast<double>(rng.range(-2, 2));
+            exact = true;
+            vector_t x(function.size()), gx(function.size());
+            for (tensor_size_t i = 0; i < x.size(); ++i)
+            {
+                x(i) = static_cast<double>(rng.range(-2, 2));
+            }
+            const auto fx  = function.vgrad(x, gx);
+            const auto fx0 = function.vgrad(x);
+            const auto W   = function.weights(x);
+            const auto b   = function.bias(x);
+            const auto gW  = function.weights(gx);
+            const auto gb  = function.bias(gx);
+            const auto wsz = static_cast<double>(W.size());
+            std::vector<std::vector<int64_t>> Wr, gWr;
+            for (tensor_size_t t = 0; t < tsize; ++t)
+            {
+                Wr.push_back(lat(W.tensor(t).data(), isize, 1.0, exact));
+                gWr.push_back(lat(gW.tensor(t).data(), isize, static_cast<double>(n) * wsz, exact));
+            }
+            vt::J j("Lin");
+            j.i("case", icase).s("loss", lossid).i("n", n).aa("X", rows(X, 1.0, exact)).aa("T", rows(T, 1.0, exact)).aa("W", Wr).a("b", lat(b.data(), tsize, 1.0, exact));
+            j.i("l1", static_cast<int64_t>(l1)).i("l2", static_cast<int64_t>(l2));
+            int64_t fxS = 0;
+            exact       = vt::to_lattice(fx, 2.0 * static_cast<double>(n) * wsz, fxS) && exact;
+            j.i("fxS", fxS).aa("gW", gWr).a("gb", lat(gb.data(), tsize, static_cast<double>(n), exact)).b("valueOnlySame", fx0 == fx).i("call", call);
+            vt::put(exact ? j : vt::J("Inexact").i("case", icase).s("what", "linear"));
         }
-        const auto fx  = function.vgrad(x, gx);
-        const auto fx0 = function.vgrad(x);
-        const auto W   = function.weights(x);
-        const auto b   = function.bias(x);
-        const auto gW  = function.weights(gx);
-        const auto gb  = function.bias(gx);
-        const auto wsz = static_cast<double>(W.size());
-        std::vector<std::vector<int64_t>> Wr, gWr;
-        for (tensor_size_t t = 0; t < tsize; ++t)
-        {
-            Wr.push_back(lat(W.tensor(t).data(), isize, 1.0, exact));
-            gWr.push_back(lat(gW.tensor(t).data(), isize, static_cast<double>(n) * wsz, exact));
-        }
-        vt::J j("Lin");
-        j.i("case", icase).s("loss", lossid).i("n", n).aa("X", rows(X, 1.0, exact)).aa("T", rows(T, 1.0, exact)).aa("W", Wr).a("b", lat(b.data(), tsize, 1.0, exact));
-        j.i("l1", static_cast<int64_t>(l1)).i("l2", static_cast<int64_t>(l2));
-        int64_t fxS = 0;
-        exact       = vt::to_lattice(fx, 2.0 * static_cast<double>(n) * wsz, fxS) && exact;
-        j.i("fxS", fxS).aa("gW", gWr).a("gb", lat(gb.data(), tsize, static_cast<double>(n), exact)).b("valueOnlySame", fx0 == fx);
-        vt::put(exact ? j : vt::J("Inexact").i("case", icase).s("what", "linear"));
     }
     // ---- gradient boosting objectives
-    exact = true;
     {
         auto it = targets_iterator_t{*dataset, samples};
         it.batch(rng.pick(std::vector<tensor_size_t>{1, 2, 5, 10000}));
         it.scaling(scaling_type::none);
+        int64_t    fxS  = 0;
         const auto bias = gboost::bias_function_t{it, *loss};
-        vector_t   x(tsize), gx(tsize);
-        for (tensor_size_t i = 0; i < tsize; ++i)
+        for (int call = 1; call <= calls; ++call)
         {
-            x(i) = static_cast<double>(rng.range(-3, 3));
+            exact = true;
+            vector_t x(tsize), gx(tsize);
+            for (tensor_size_t i = 0; i < tsize; ++i)
+            {
+                x(i) = static_cast<double>(rng.range(-3, 3));
+            }
+            const auto fx = bias.vgrad(x, gx);
+            exact         = vt::to_lattice(fx, 2.0 * static_cast<double>(n), fxS) && exact;
+            vt::J j("Bias");
+            j.i("case", icase).s("loss", lossid).aa("T", rows(T, 1.0, exact)).a("b", lat(x.data(), tsize, 1.0, exact)).i("fxS", fxS).a(
+                "g", lat(gx.data(), tsize, static_cast<double>(n), exact)).b("valueOnlySame", bias.vgrad(x) == fx).i("call", call);
+            vt::put(exact ? j : vt::J("Inexact").i("case", icase).s("what", "bias"));
         }
-        const auto fx = bias.vgrad(x, gx);
-        int64_t    fxS = 0;
-        exact          = vt::to_lattice(fx, 2.0 * static_cast<double>(n), fxS) && exact;
-        vt::J j("Bias");
-        j.i("case", icase).s("loss", lossid).aa("T", rows(T, 1.0, exact)).a("b", lat(x.data(), tsize, 1.0, exact)).i("fxS", fxS).a(
-            "g", lat(gx.data(), tsize, static_cast<double>(n), exact)).b("valueOnlySame", bias.vgrad(x) == fx);
-        vt::put(exact ? j : vt::J("Inexact").i("case", icase).s("what", "bias"));
 
         // scale objective: strong + scale[cluster] * weak outputs, some samples unassigned
-        exact = true;
         const auto groups = rng.range(1, 3);
         cluster_t  cluster(D.n, groups);
         tensor4d_t soutputs(cat_dims(D.n, dataset->target_dims())), woutputs(cat_dims(D.n, dataset->target_dims()));
@@ -314,12 +412,6 @@ void lattice_case(vt::Rng& rng, int64_t icase)
             cluster.assign(s, rng.coin(1, 5) ? -1 : rng.range(0, groups - 1));
         }
         const auto scale = gboost::scale_function_t{it, *loss, cluster, soutputs, woutputs};
-        vector_t   sx(groups), sg(groups);
-        for (tensor_size_t i = 0; i < groups; ++i)
-        {
-            sx(i) = static_cast<double>(rng.range(-2, 3));
-        }
-        const auto sfx = scale.vgrad(sx, sg);
         tensor2d_t S(n, tsize), Wo(n, tsize);
         std::vector<int64_t> cl;
         for (tensor_size_t i = 0; i < n; ++i)
@@ -331,42 +423,57 @@ void lattice_case(vt::Rng& rng, int64_t icase)
             }
             cl.push_back(cluster.group(samples(i)));
         }
-        exact = vt::to_lattice(sfx, 2.0 * static_cast<double>(n), fxS) && exact;
-        vt::J js("Scale");
-        js.i("case", icase).s("loss", lossid).aa("T", rows(T, 1.0, exact)).aa("S", rows(S, 1.0, exact)).aa("Wo", rows(Wo, 1.0, exact)).a("cl", cl).a(
-            "x", lat(sx.data(), groups, 1.0, exact)).i("fxS", fxS).a("g", lat(sg.data(), groups, static_cast<double>(n), exact)).b("valueOnlySame", scale.vgrad(sx) == sfx);
-        vt::put(exact ? js : vt::J("Inexact").i("case", icase).s("what", "scale"));
+        for (int call = 1; call <= calls; ++call)
+        {
+            exact = true;
+            vector_t sx(groups), sg(groups);
+            for (tensor_size_t i = 0; i < groups; ++i)
+            {
+                sx(i) = static_cast<double>(rng.range(-2, 3));
+            }
+            const auto sfx = scale.vgrad(sx, sg);
+            exact          = vt::to_lattice(sfx, 2.0 * static_cast<double>(n), fxS) && exact;
+            vt::J js("Scale");
+            js.i("case", icase).s("loss", lossid).aa("T", rows(T, 1.0, exact)).aa("S", rows(S, 1.0, exact)).aa("Wo", rows(Wo, 1.0, exact)).a("cl", cl).a(
+                "x", lat(sx.data(), groups, 1.0, exact)).i("fxS", fxS).a("g", lat(sg.data(), groups, static_cast<double>(n), exact)).b(
+                "valueOnlySame", scale.vgrad(sx) == sfx).i("call", call);
+            vt::put(exact ? js : vt::J("Inexact").i("case", icase).s("what", "scale"));
+        }
 
         // gradient objective at integer outputs
-        exact = true;
         const auto grads = gboost::grads_function_t{it, *loss};
-        vector_t   ox(n * tsize), og(n * tsize);
-        for (tensor_size_t i = 0; i < ox.size(); ++i)
+        for (int call = 1; call <= calls; ++call)
         {
-            ox(i) = static_cast<double>(rng.range(-3, 3));
+            exact = true;
+            vector_t ox(n * tsize), og(n * tsize);
+            for (tensor_size_t i = 0; i < ox.size(); ++i)
+            {
+                ox(i) = static_cast<double>(rng.range(-3, 3));
+            }
+            const auto gfx = grads.vgrad(ox, og);
+            tensor2d_t O(n, tsize), G(n, tsize);
+            for (tensor_size_t i = 0; i < n * tsize; ++i)
+            {
+                O(i) = ox(i);
+                G(i) = og(i);
+            }
+            exact = vt::to_lattice(gfx, 2.0 * static_cast<double>(n), fxS) && exact;
+            vt::J jg("Grads");
+            jg.i("case", icase).s("loss", lossid).aa("T", rows(T, 1.0, exact)).aa("O", rows(O, 1.0, exact)).i("fxS", fxS).aa("g", rows(G, static_cast<double>(n), exact)).i(
+                "call", call);
+            vt::put(exact ? jg : vt::J("Inexact").i("case", icase).s("what", "grads"));
         }
-        const auto gfx = grads.vgrad(ox, og);
-        tensor2d_t O(n, tsize), G(n, tsize);
-        for (tensor_size_t i = 0; i < n * tsize; ++i)
-        {
-            O(i) = ox(i);
-            G(i) = og(i);
-        }
-        exact = vt::to_lattice(gfx, 2.0 * static_cast<double>(n), fxS) && exact;
-        vt::J jg("Grads");
-        jg.i("case", icase).s("loss", lossid).aa("T", rows(T, 1.0, exact)).aa("O", rows(O, 1.0, exact)).i("fxS", fxS).aa("g", rows(G, static_cast<double>(n), exact));
-        vt::put(exact ? jg : vt::J("Inexact").i("case", icase).s("what", "grads"));
     }
 }
 
 void invariance_case(vt::Rng& rng, int64_t icase)
 {
     const auto lattice = rng.coin();
-    const auto D       = make_data(rng, true, false);
+    const auto D       = make_data(rng, true, target_kind::scalar, rng.coin(1, 3));
     const auto lossid  = lattice ? (rng.coin() ? "mse" : "mae") : rng.pick(std::vector<std::string>{"mse", "mae", "cauchy", "pinball"});
     const auto inner   = loss_t::all().get(lossid);
     const auto spy     = spy_loss_t{*inner};
-    const auto samples = pick_samples(rng, D.n);
+    const auto samples = pick_samples(rng, D.n, true);
     const auto n       = samples.size();
 
     vector_t x0;
@@ -412,6 +519,7 @@ void invariance_case(vt::Rng& rng, int64_t icase)
         {
             expected.push_back(samples(i));
         }
+        std::sort(expected.begin(), expected.end()); // the list may be shuffled and may repeat samples: compared as a multiset
         bool batchOK = true;
         for (const auto bsize : spy.m_batches)
         {
@@ -470,12 +578,15 @@ void invariance_case(vt::Rng& rng, int64_t icase)
 // to 1e6, cached / un-cached inputs and targets, any batch size and thread count
 void naive_case(vt::Rng& rng, int64_t icase)
 {
-    const auto class_target = rng.coin(1, 3);
-    const auto D            = make_data(rng, true, class_target);
+    // targets: scalar / 3-class (as before), structured regression targets with 2..3 outputs, multi-label targets; inputs: scalar and
+    // single-label features, and (rich) multi-label and structured ones; sample lists: also shuffled and with repetitions
+    const auto tpick        = rng.range(0, 11);
+    const auto target       = tpick < 3 ? target_kind::sclass : tpick < 6 ? target_kind::structured : tpick < 8 ? target_kind::mclass : target_kind::scalar;
+    const auto D            = make_data(rng, true, target, rng.coin());
     const auto ids          = loss_t::all().ids();
     const auto lossid       = ids[static_cast<size_t>(rng.range(0, static_cast<int64_t>(ids.size()) - 1))];
     const auto loss         = loss_t::all().get(lossid);
-    const auto samples      = pick_samples(rng, D.n);
+    const auto samples      = pick_samples(rng, D.n, true);
     const auto n            = samples.size();
     const auto mode         = rng.pick(std::vector<scaling_type>{scaling_type::none, scaling_type::mean, scaling_type::minmax, scaling_type::standard});
     const auto l1           = rng.coin(1, 4) ? 0.0 : std::pow(10.0, rng.uniform(-3.0, 6.0));
@@ -495,32 +606,63 @@ void naive_case(vt::Rng& rng, int64_t icase)
     }
     const auto isize = X.size<1>(), tsize = T.size() / std::max<tensor_size_t>(1, n);
 
-    vector_t x(isize * tsize + tsize);
-    for (tensor_size_t i = 0; i < x.size(); ++i)
-    {
-        x(i) = rng.uniform(-0.5, 0.5) / std::sqrt(static_cast<double>(isize));
-    }
-    // naive value and gradient
-    const auto W = map_tensor(x.data(), tsize, isize);
-    const auto b = map_tensor(x.data() + tsize * isize, tsize);
     tensor4d_t outputs(T.dims());
-    outputs.reshape(n, tsize).matrix() = X.matrix() * W.matrix().transpose();
-    outputs.reshape(n, tsize).matrix().rowwise() += b.vector().transpose();
     tensor1d_t values;
     tensor4d_t vgrads;
-    loss->value(T, outputs, values);
-    loss->vgrad(T, outputs, vgrads);
-    const auto wsz = static_cast<double>(W.size());
-    const auto nfx = values.vector().sum() / static_cast<double>(n) + l1 * W.array().abs().sum() / wsz + 0.5 * l2 * W.array().square().sum() / wsz;
-    vector_t   ngx(x.size());
+    const auto wsz = static_cast<double>(isize * tsize);
+
+    // naive value and gradient of the linear objective at x; returns whether they are finite
+    const auto naive_linear = [&](const vector_t& x, double& nfx, vector_t& ngx)
     {
+        const auto W = map_tensor(x.data(), tsize, isize);
+        const auto b = map_tensor(x.data() + tsize * isize, tsize);
+        outputs.reshape(n, tsize).matrix() = X.matrix() * W.matrix().transpose();
+        outputs.reshape(n, tsize).matrix().rowwise() += b.vector().transpose();
+        loss->value(T, outputs, values);
+        loss->vgrad(T, outputs, vgrads);
+        nfx = values.vector().sum() / static_cast<double>(n) + l1 * W.array().abs().sum() / wsz + 0.5 * l2 * W.array().square().sum() / wsz;
+        ngx = vector_t(x.size());
         auto gW          = map_tensor(ngx.data(), tsize, isize);
         auto gb          = map_tensor(ngx.data() + tsize * isize, tsize);
         gW.matrix()      = vgrads.reshape(n, tsize).matrix().transpose() * X.matrix() / static_cast<double>(n);
         gW.array()      += l1 * W.array().sign() / wsz + l2 * W.array() / wsz;
         gb.vector()      = vgrads.reshape(n, tsize).matrix().colwise().sum().transpose() / static_cast<double>(n);
-    }
-    const auto finite = std::isfinite(nfx) && ngx.all_finite();
+        return std::isfinite(nfx) && ngx.all_finite();
+    };
+    const auto draw_linear = [&]()
+    {
+        vector_t x(isize * tsize + tsize);
+        for (tensor_size_t i = 0; i < x.size(); ++i)
+        {
+            x(i) = rng.uniform(-0.5, 0.5) / std::sqrt(static_cast<double>(isize));
+        }
+        return x;
+    };
+    // mean_i loss(t_i, b)
+    const auto naive_bias = [&](const vector_t& bx, double& nbf, vector_t& nbg)
+    {
+        outputs.reshape(n, tsize).matrix().rowwise() = bx.vector().transpose();
+        loss->value(T, outputs, values);
+        loss->vgrad(T, outputs, vgrads);
+        nbf          = values.vector().sum() / static_cast<double>(n);
+        nbg          = vector_t(tsize);
+        nbg.vector() = vgrads.reshape(n, tsize).matrix().colwise().sum().transpose() / static_cast<double>(n);
+        return std::isfinite(nbf) && nbg.all_finite();
+    };
+    const auto draw = [&](tensor_size_t size, double lo, double hi)
+    {
+        vector_t x(size);
+        for (tensor_size_t i = 0; i < size; ++i)
+        {
+            x(i) = rng.uniform(lo, hi);
+        }
+        return x;
+    };
+
+    const auto x = draw_linear();
+    double     nfx = 0;
+    vector_t   ngx;
+    const auto finite = naive_linear(x, nfx, ngx);
 
     for (int variant = 0; variant < 3; ++variant)
     {
@@ -541,11 +683,26 @@ void naive_case(vt::Rng& rng, int64_t icase)
         }
         const auto function = linear::function_t{it, *loss, l1, l2};
         vector_t   gx(function.size());
-        const auto fx = function.size() == x.size() ? function.vgrad(x, gx) : std::nan("");
+        const auto sized = function.size() == x.size();
+        const auto fx = sized ? function.vgrad(x, gx) : std::nan("");
         const auto ok = !finite || (close_rel(fx, nfx) && close_rel(gx, ngx));
+        const auto vo = !finite || close_rel(function.vgrad(x), fx);
+        // the same object again, with the gradient, at another point and then back at the first one: as a solver uses it
+        bool again = sized;
+        if (sized)
+        {
+            const auto x2 = draw_linear();
+            double     nfx2 = 0;
+            vector_t   ngx2, gx2(function.size()), gx3(function.size());
+            const auto finite2 = naive_linear(x2, nfx2, ngx2);
+            const auto fx2     = function.vgrad(x2, gx2);
+            again              = !finite2 || (close_rel(fx2, nfx2) && close_rel(gx2, ngx2));
+            const auto fx3     = function.vgrad(x, gx3);
+            again              = again && (!finite || (close_rel(fx3, nfx) && close_rel(gx3, ngx)));
+        }
         vt::put(vt::J("Naive").i("case", icase).s("what", "linear").s("loss", lossid).i("scaling", static_cast<int64_t>(mode)).i("threads", static_cast<int64_t>(threads)).i(
             "batch", std::min<tensor_size_t>(batch, 100000)).b("cachedInputs", cachex).b("cachedTargets", cachet).b("finite", finite).b("naiveOK", ok).b(
-            "valueOnlySame", !finite || close_rel(function.vgrad(x), fx)));
+            "valueOnlySame", vo).b("againOK", again).i("tsize", tsize).i("isize", isize));
 
         // gboost bias objective: mean_i loss(t_i, b)
         auto tit = targets_iterator_t{*dataset, samples};
@@ -555,95 +712,130 @@ void naive_case(vt::Rng& rng, int64_t icase)
         {
             tit.cache_targets(std::numeric_limits<tensor_size_t>::max());
         }
-        const auto bias = gboost::bias_function_t{tit, *loss};
-        vector_t   bx(tsize), bgx(tsize), nbg(tsize);
-        for (tensor_size_t i = 0; i < tsize; ++i)
         {
-            bx(i) = rng.uniform(-1.0, 1.0);
+            const auto bias = gboost::bias_function_t{tit, *loss};
+            const auto bx   = draw(tsize, -1.0, 1.0);
+            vector_t   bgx(tsize), nbg;
+            double     nbf = 0;
+            const auto bfinite = naive_bias(bx, nbf, nbg);
+            const auto bfx     = bias.vgrad(bx, bgx);
+            const auto bok     = !bfinite || (close_rel(bfx, nbf) && close_rel(bgx, nbg));
+            const auto bvo     = !bfinite || close_rel(bias.vgrad(bx), bfx);
+            const auto bx2     = draw(tsize, -2.0, 2.0);
+            vector_t   bgx2(tsize), nbg2, bgx3(tsize);
+            double     nbf2 = 0;
+            const auto bfinite2 = naive_bias(bx2, nbf2, nbg2);
+            const auto bfx2     = bias.vgrad(bx2, bgx2);
+            const auto bfx3     = bias.vgrad(bx, bgx3);
+            const auto bagain   = (!bfinite2 || (close_rel(bfx2, nbf2) && close_rel(bgx2, nbg2))) && (!bfinite || (close_rel(bfx3, nbf) && close_rel(bgx3, nbg)));
+            vt::put(vt::J("Naive").i("case", icase).s("what", "gboost-bias").s("loss", lossid).i("scaling", static_cast<int64_t>(mode)).i("threads", static_cast<int64_t>(threads)).i(
+                "batch", std::min<tensor_size_t>(batch, 100000)).b("cachedInputs", false).b("cachedTargets", cachet).b("finite", bfinite).b(
+                "naiveOK", bok).b("valueOnlySame", bvo).b("againOK", bagain).i("tsize", tsize).i("isize", isize));
         }
-        outputs.reshape(n, tsize).matrix().rowwise() = bx.vector().transpose();
-        loss->value(T, outputs, values);
-        loss->vgrad(T, outputs, vgrads);
-        const auto nbf = values.vector().sum() / static_cast<double>(n);
-        nbg.vector()   = vgrads.reshape(n, tsize).matrix().colwise().sum().transpose() / static_cast<double>(n);
-        const auto bfx = bias.vgrad(bx, bgx);
-        const auto bfinite = std::isfinite(nbf) && nbg.all_finite();
-        vt::put(vt::J("Naive").i("case", icase).s("what", "gboost-bias").s("loss", lossid).i("scaling", static_cast<int64_t>(mode)).i("threads", static_cast<int64_t>(threads)).i(
-            "batch", std::min<tensor_size_t>(batch, 100000)).b("cachedInputs", false).b("cachedTargets", cachet).b("finite", bfinite).b(
-            "naiveOK", !bfinite || (close_rel(bfx, nbf) && close_rel(bgx, nbg))).b("valueOnlySame", !bfinite || close_rel(bias.vgrad(bx), bfx)));
 
         // gboost scale objective: mean_i loss(t_i, s_i + x[cluster_i] * w_i), real-valued outputs, some samples unassigned
-        const auto groups = rng.range(1, 4);
-        cluster_t  cluster(D.n, groups);
-        tensor4d_t soutputs(cat_dims(D.n, dataset->target_dims())), woutputs(cat_dims(D.n, dataset->target_dims()));
-        for (tensor_size_t i = 0; i < soutputs.size(); ++i)
         {
-            soutputs(i) = rng.uniform(-1.0, 1.0);
-            woutputs(i) = rng.uniform(-1.0, 1.0);
-        }
-        for (int64_t u = 0; u < D.n; ++u)
-        {
-            cluster.assign(u, rng.coin(1, 5) ? -1 : rng.range(0, groups - 1));
-        }
-        vector_t sx(groups), sgx(groups), nsg(groups);
-        for (tensor_size_t g = 0; g < groups; ++g)
-        {
-            sx(g) = rng.uniform(-1.0, 2.0);
-        }
-        for (tensor_size_t i = 0; i < n; ++i)
-        {
-            const auto group = cluster.group(samples(i));
-            for (tensor_size_t k = 0; k < tsize; ++k)
+            const auto groups = rng.range(1, 4);
+            cluster_t  cluster(D.n, groups);
+            tensor4d_t soutputs(cat_dims(D.n, dataset->target_dims())), woutputs(cat_dims(D.n, dataset->target_dims()));
+            for (tensor_size_t i = 0; i < soutputs.size(); ++i)
             {
-                outputs.reshape(n, tsize)(i, k) =
-                    soutputs.reshape(D.n, tsize)(samples(i), k) + (group < 0 ? 0.0 : sx(group)) * woutputs.reshape(D.n, tsize)(samples(i), k);
+                soutputs(i) = rng.uniform(-1.0, 1.0);
+                woutputs(i) = rng.uniform(-1.0, 1.0);
             }
-        }
-        loss->value(T, outputs, values);
-        loss->vgrad(T, outputs, vgrads);
-        const auto nsf = values.vector().sum() / static_cast<double>(n);
-        nsg.full(0.0);
-        for (tensor_size_t i = 0; i < n; ++i)
-        {
-            const auto group = cluster.group(samples(i));
-            for (tensor_size_t k = 0; k < tsize && group >= 0; ++k)
+            for (int64_t u = 0; u < D.n; ++u)
             {
-                nsg(group) += vgrads.reshape(n, tsize)(i, k) * woutputs.reshape(D.n, tsize)(samples(i), k) / static_cast<double>(n);
+                cluster.assign(u, rng.coin(1, 5) ? -1 : rng.range(0, groups - 1));
             }
+            const auto naive_scale = [&](const vector_t& sx, double& nsf, vector_t& nsg)
+            {
+                for (tensor_size_t i = 0; i < n; ++i)
+                {
+                    const auto group = cluster.group(samples(i));
+                    for (tensor_size_t k = 0; k < tsize; ++k)
+                    {
+                        outputs.reshape(n, tsize)(i, k) =
+                            soutputs.reshape(D.n, tsize)(samples(i), k) + (group < 0 ? 0.0 : sx(group)) * woutputs.reshape(D.n, tsize)(samples(i), k);
+                    }
+                }
+                loss->value(T, outputs, values);
+                loss->vgrad(T, outputs, vgrads);
+                nsf = values.vector().sum() / static_cast<double>(n);
+                nsg = vector_t(groups);
+                nsg.full(0.0);
+                for (tensor_size_t i = 0; i < n; ++i)
+                {
+                    const auto group = cluster.group(samples(i));
+                    for (tensor_size_t k = 0; k < tsize && group >= 0; ++k)
+                    {
+                        nsg(group) += vgrads.reshape(n, tsize)(i, k) * woutputs.reshape(D.n, tsize)(samples(i), k) / static_cast<double>(n);
+                    }
+                }
+                return std::isfinite(nsf) && nsg.all_finite();
+            };
+            const auto scale = gboost::scale_function_t{tit, *loss, cluster, soutputs, woutputs};
+            const auto sx    = draw(groups, -1.0, 2.0);
+            vector_t   sgx(groups), nsg;
+            double     nsf = 0;
+            const auto sfinite = naive_scale(sx, nsf, nsg);
+            const auto sfx     = scale.vgrad(sx, sgx);
+            const auto sok     = !sfinite || (close_rel(sfx, nsf) && close_rel(sgx, nsg));
+            const auto svo     = !sfinite || close_rel(scale.vgrad(sx), sfx);
+            const auto sx2     = draw(groups, -2.0, 2.0);
+            vector_t   sgx2(groups), nsg2, sgx3(groups);
+            double     nsf2 = 0;
+            const auto sfinite2 = naive_scale(sx2, nsf2, nsg2);
+            const auto sfx2     = scale.vgrad(sx2, sgx2);
+            const auto sfx3     = scale.vgrad(sx, sgx3);
+            const auto sagain   = (!sfinite2 || (close_rel(sfx2, nsf2) && close_rel(sgx2, nsg2))) && (!sfinite || (close_rel(sfx3, nsf) && close_rel(sgx3, nsg)));
+            vt::put(vt::J("Naive").i("case", icase).s("what", "gboost-scale").s("loss", lossid).i("scaling", static_cast<int64_t>(mode)).i("threads", static_cast<int64_t>(threads)).i(
+                "batch", std::min<tensor_size_t>(batch, 100000)).b("cachedInputs", false).b("cachedTargets", cachet).b("finite", sfinite).b(
+                "naiveOK", sok).b("valueOnlySame", svo).b("againOK", sagain).i("tsize", tsize).i("isize", isize));
         }
-        const auto scale   = gboost::scale_function_t{tit, *loss, cluster, soutputs, woutputs};
-        const auto sfx     = scale.vgrad(sx, sgx);
-        const auto sfinite = std::isfinite(nsf) && nsg.all_finite();
-        vt::put(vt::J("Naive").i("case", icase).s("what", "gboost-scale").s("loss", lossid).i("scaling", static_cast<int64_t>(mode)).i("threads", static_cast<int64_t>(threads)).i(
-            "batch", std::min<tensor_size_t>(batch, 100000)).b("cachedInputs", false).b("cachedTargets", cachet).b("finite", sfinite).b(
-            "naiveOK", !sfinite || (close_rel(sfx, nsf) && close_rel(sgx, nsg))).b("valueOnlySame", !sfinite || close_rel(scale.vgrad(sx), sfx)));
 
         // gboost gradient objective: the per-sample loss gradients at real-valued outputs
-        const auto grads = gboost::grads_function_t{tit, *loss};
-        vector_t   ox(n * tsize), ogx(n * tsize), nog(n * tsize);
-        for (tensor_size_t i = 0; i < ox.size(); ++i)
         {
-            ox(i)                              = rng.uniform(-1.0, 1.0);
-            outputs.reshape(n, tsize).data()[i] = ox(i);
+            const auto grads = gboost::grads_function_t{tit, *loss};
+            bool       gagain = true, gok = true, gvo = true, gfinite1 = true;
+            for (int call = 0; call < 3; ++call)
+            {
+                vector_t ox(n * tsize), ogx(n * tsize), nog(n * tsize);
+                for (tensor_size_t i = 0; i < ox.size(); ++i)
+                {
+                    ox(i)                               = rng.uniform(-1.0, 1.0) * (call == 0 ? 1.0 : 2.0);
+                    outputs.reshape(n, tsize).data()[i] = ox(i);
+                }
+                loss->value(T, outputs, values);
+                loss->vgrad(T, outputs, vgrads);
+                const auto ngf = values.vector().sum() / static_cast<double>(n);
+                for (tensor_size_t i = 0; i < ox.size(); ++i)
+                {
+                    nog(i) = vgrads.data()[i] / static_cast<double>(n);
+                }
+                const auto gfx     = grads.vgrad(ox, ogx);
+                const auto gfinite = std::isfinite(ngf) && nog.all_finite();
+                const auto& pergrads = grads.gradients(outputs);
+                bool        persame  = pergrads.size() == vgrads.size();
+                for (tensor_size_t i = 0; i < vgrads.size() && persame; ++i)
+                {
+                    persame = !std::isfinite(vgrads.data()[i]) || close_rel(pergrads.data()[i], vgrads.data()[i]);
+                }
+                const auto okc = !gfinite || (close_rel(gfx, ngf) && close_rel(ogx, nog) && persame);
+                if (call == 0)
+                {
+                    gfinite1 = gfinite;
+                    gok      = okc;
+                    gvo      = !gfinite || close_rel(grads.vgrad(ox), gfx);
+                }
+                else
+                {
+                    gagain = gagain && okc;
+                }
+            }
+            vt::put(vt::J("Naive").i("case", icase).s("what", "gboost-grads").s("loss", lossid).i("scaling", static_cast<int64_t>(mode)).i("threads", static_cast<int64_t>(threads)).i(
+                "batch", std::min<tensor_size_t>(batch, 100000)).b("cachedInputs", false).b("cachedTargets", cachet).b("finite", gfinite1).b(
+                "naiveOK", gok).b("valueOnlySame", gvo).b("againOK", gagain).i("tsize", tsize).i("isize", isize));
         }
-        loss->value(T, outputs, values);
-        loss->vgrad(T, outputs, vgrads);
-        const auto ngf = values.vector().sum() / static_cast<double>(n);
-        for (tensor_size_t i = 0; i < ox.size(); ++i)
-        {
-            nog(i) = vgrads.data()[i] / static_cast<double>(n);
-        }
-        const auto gfx     = grads.vgrad(ox, ogx);
-        const auto gfinite = std::isfinite(ngf) && nog.all_finite();
-        const auto& pergrads = grads.gradients(outputs);
-        bool        persame  = pergrads.size() == vgrads.size();
-        for (tensor_size_t i = 0; i < vgrads.size() && persame; ++i)
-        {
-            persame = !std::isfinite(vgrads.data()[i]) || close_rel(pergrads.data()[i], vgrads.data()[i]);
-        }
-        vt::put(vt::J("Naive").i("case", icase).s("what", "gboost-grads").s("loss", lossid).i("scaling", static_cast<int64_t>(mode)).i("threads", static_cast<int64_t>(threads)).i(
-            "batch", std::min<tensor_size_t>(batch, 100000)).b("cachedInputs", false).b("cachedTargets", cachet).b("finite", gfinite).b(
-            "naiveOK", !gfinite || (close_rel(gfx, ngf) && close_rel(ogx, nog) && persame)).b("valueOnlySame", !gfinite || close_rel(grads.vgrad(ox), gfx)));
     }
 }
 } // namespace
